@@ -60,9 +60,9 @@ def snapshot(root):
             if stat.S_ISLNK(st.st_mode):
                 out[rel] = ("link", os.readlink(p).replace(root, "<root>"))
             elif stat.S_ISDIR(st.st_mode):
-                out[rel] = ("dir", stat.S_IMODE(st.st_mode) & 0o700)
+                out[rel] = ("dir", stat.S_IMODE(st.st_mode) & 0o7700)
             else:
-                out[rel] = ("file", open(p, "rb").read(), stat.S_IMODE(st.st_mode) & 0o700, st.st_nlink > 1)
+                out[rel] = ("file", open(p, "rb").read(), stat.S_IMODE(st.st_mode) & 0o7700, st.st_nlink > 1)
     return out
 
 
@@ -124,7 +124,7 @@ async def apply(op, root, base):
 
 
 def random_ops(n):
-    ops, known_dirs, known_files = [], [()], []
+    ops, known_dirs, known_files, known_links = [], [()], [], []
     for _ in range(n):
         r = rng.random()
         if r < 0.2:
@@ -141,12 +141,18 @@ def random_ops(n):
         elif r < 0.6:
             ops.append((rng.choice(["exists", "is_dir", "is_file", "is_symlink", "size", "checksum", "resolve"]), rng.choice(known_dirs + known_files + [("missing",)])))
         elif r < 0.68 and known_files:
-            t = rng.choice(known_files + known_dirs[1:] or known_files)
+            # (now and then the target was never created: a dangling link)
+            t = rng.choice(known_files + known_dirs[1:] or known_files) if rng.random() < 0.8 else ("never created",)
             l = rng.choice(known_dirs) + (rng.choice(NAMES) + ".lnk",)
             ops.append((rng.choice(["symlink_to", "hardlink_to"]) if t in known_files else "symlink_to", l, t))
+            known_links.append(l)
         elif r < 0.74 and known_files:
-            ops.append(("chmod", rng.choice(known_files), rng.choice([0o600, 0o700, 0o400 | 0o200])))
-        elif r < 0.82:
+            # (permission bits and the setuid / setgid / sticky bits)
+            ops.append(("chmod", rng.choice(known_files), rng.choice([0o600, 0o700, 0o400 | 0o200, 0o4755, 0o2770, 0o1777])))
+        elif r < 0.78 and known_links:
+            # a link seen through the predicates: live, dangling (its target was removed or never existed), replaced
+            ops.append((rng.choice(["exists", "is_symlink", "is_file", "is_dir"]), rng.choice(known_links)))
+        elif r < 0.84:
             ops.append(("glob", rng.choice(known_dirs), rng.choice(["*", "*.txt", "*e*", "?*"])))
         elif r < 0.9:
             ops.append(("walk", rng.choice(known_dirs)))
@@ -247,6 +253,15 @@ def systematic_ops():
             ops += [("mkdir", d, 0o755, parents, exist_ok), ("mkdir", d, 0o755, parents, exist_ok), ("is_dir", d)]
             if parents == exist_ok:
                 ops += [("mkdir", (f"deep{k}", "x y"), 0o700, parents, exist_ok), ("is_dir", (f"deep{k}", "x y"))]
+    # links through the predicates: dangling from the start, live, and dangling after the target was removed
+    preds = ["exists", "is_symlink", "is_file", "is_dir"]
+    ops += [("symlink_to", ("dang.lnk",), ("never created",))] + [(q, ("dang.lnk",)) for q in preds]
+    ops += [("mkdir", ("tgt d",), 0o755, False, False), ("write_text", ("tgt d", "f.txt"), "x"), ("symlink_to", ("live.lnk",), ("tgt d", "f.txt")),
+            ("symlink_to", ("livedir.lnk",), ("tgt d",))]
+    ops += [(q, (l,)) for q in preds for l in ("live.lnk", "livedir.lnk")]
+    ops += [("rmtree", ("tgt d",))] + [(q, (l,)) for q in preds for l in ("live.lnk", "livedir.lnk")]
+    # permission bits and the special bits
+    ops += [("write_text", ("modes.txt",), "m")] + [("chmod", ("modes.txt",), m) for m in (0o640, 0o4755, 0o2770, 0o1777, 0o600)]
     return ops
 
 
